@@ -312,6 +312,41 @@ def run(ctx):
         else:
             ok, why = False, 'non-constant value'
         ctx.ob('C07-R4', fn, norm(st), ok, why, line=st.lineno)
+    # ---- R6 iteration and save walk the indices 0 .. len-1 in order -----------
+    itc = m.cls('_TrajectoryStoreIterator')
+    nx = itc.methods.get('__next__')
+    ini = itc.methods.get('__init__')
+    if nx is None or ini is None:
+        ctx.undecided('C07-R6', (m.relpath, '_TrajectoryStoreIterator'), '__next__', 'iterator methods not found')
+    src = ' '.join(norm(s_) for s_ in nx.node.body)
+    ok = 'if self._index < len(self._store)' in src and 'item = self._store[self._index]' in src \
+        and 'self._index += 1' in src and 'raise StopIteration' in src
+    start = [st for t, st, how in stores_to(ini.node) if norm(t) == 'self._index']
+    ok = ok and len(start) == 1 and norm(start[0].value) == '0'
+    ctx.ob('C07-R6', nx, 'iteration yields store[0], store[1], … while index < len(store)', ok,
+           'starts at 0, reads store[index], then advances by one, stops at len' if ok else
+           'iteration does not walk the indices 0..len-1 in order')
+    it = m.func('TrajectoryStore.__iter__')
+    r = [n for n in walk_no_nested(it.node) if isinstance(n, ast.Return)]
+    ok = len(r) == 1 and norm(r[0].value) == '_TrajectoryStoreIterator(self)'
+    ctx.ob('C07-R6', it, '__iter__ hands out a fresh iterator over this store', ok, norm(r[0].value) if ok else '__iter__ changed', nontrivial=False)
+    sv = m.func('TrajectoryStore.save')
+    n_def = single_def_value(sv.node, 'trajectories_to_save')
+    g2 = CFG(sv.node)
+    dom2 = g2.dominators(edge_ok=lambda a, b, lab: lab != 'e')
+    cr = [n for n in g2.nodes if n.stmt is not None and n.kind == 'stmt' and any(call_name(c) == 'self._create' for c in calls_in(n.stmt))]
+    nd = [n for n in g2.nodes if n.stmt is not None and n.kind == 'stmt' and isinstance(n.stmt, ast.Assign)
+          and norm(n.stmt.targets[0]) == 'trajectories_to_save']
+    ok = n_def is not None and norm(n_def) == 'len(self)' and bool(cr) and bool(nd) and nd[0].id in dom2[cr[0].id]
+    ctx.ob('C07-R6', sv, 'save counts the in-memory trajectories before the files exist', ok,
+           'len(self) taken before _create() switches the length source to the (empty) file' if ok else
+           'save measures the store after linking it to the new, empty files: nothing (or the wrong number) is written')
+    wl = [n for n in walk_no_nested(sv.node) if isinstance(n, ast.For) and any(call_name(c) == 'self._write_trajectory' for c in calls_in(n))]
+    ok = len(wl) == 1 and norm(wl[0].iter) == 'range(trajectories_to_save)' and \
+        any(call_name(c) == 'self._write_trajectory' and [norm(a) for a in c.args] == [norm(wl[0].target)] for c in calls_in(wl[0]))
+    ctx.ob('C07-R6', sv, 'save writes indices 0 .. n-1, each at its own index', ok, 'for i in range(n): _write_trajectory(i)' if ok else
+           'save does not write every cached trajectory at its own index')
+
     # the flag is set on an in-memory store only if base_file is None: also the
     # in-memory condition of __init__ must read the attribute the checker set
     ctx.assumptions += [
